@@ -566,6 +566,50 @@ func run(c *props.Ctx) {
 				Replay: replayDoc{Cfg: cfg, Path: v.Path, Ops: v.Ops}})
 		}
 	}
+	if c.Shard == 0 {
+		largeCapacity(c)
+	}
+}
+
+// largeCapacity: "while the configured parameter capacity is not exceeded" also for a capacity above
+// the package's default limit (20000): 20001 distinct values at one instant exhaust their single
+// token each; the first value, used again, must still find its empty bucket. Directed, because no
+// bounded history reaches that many values.
+func largeCapacity(c *props.Ctx) {
+	for _, throttle := range []bool{false, true} {
+		env.ResetAll(env.DefaultGeometry, T0)
+		const capa = 20001
+		r := &hotspot.Rule{Resource: "big", MetricType: hotspot.QPS, ControlBehavior: hotspot.Reject, ParamIndex: 0, Threshold: 1, DurationInSec: 1, ParamsMaxCapacity: capa}
+		if throttle {
+			r.ControlBehavior, r.MaxQueueingTimeMs = hotspot.Throttling, 0
+		}
+		if _, err := hotspot.LoadRules([]*hotspot.Rule{r}); err != nil || len(hotspot.GetRules()) != 1 {
+			c.R.HarnessError("large-capacity rule not accepted")
+			return
+		}
+		blockedEarly := -1
+		for v := 0; v < capa; v++ {
+			e, blk := sentinel.Entry("big", sentinel.WithArgs(v))
+			if blk != nil {
+				blockedEarly = v
+				break
+			}
+			e.Exit()
+		}
+		what := ""
+		if blockedEarly >= 0 {
+			what = fmt.Sprintf("capacity %d: the first request for value %d was rejected", capa, blockedEarly)
+		} else if e, blk := sentinel.Entry("big", sentinel.WithArgs(0)); blk == nil {
+			e.Exit()
+			what = fmt.Sprintf("capacity %d (throttling=%v): after %d distinct values were used at one instant, a second request for the first value was admitted again (threshold 1 per second): its state was dropped although the configured capacity is not exceeded", capa, throttle, capa)
+		}
+		c.R.Evaluations += capa + 1
+		c.R.Outcome(fmt.Sprintf("large-capacity|%v", throttle))
+		if what != "" {
+			c.R.Violate(report.Violation{Signature: "C05:state-dropped-below-configured-capacity", What: what, Scenario: "large capacity", Replay: map[string]interface{}{"kind": "large-capacity"}})
+		}
+	}
+	c.R.Bounds["large_capacity_values"] = 20001
 }
 
 func replay(c *props.Ctx, raw json.RawMessage) (bool, string) {
